@@ -623,3 +623,325 @@ Proof.
   intros W HK HS. unfold ident_pv. apply den_fallback_ident; auto using item_cls_concrete.
   now apply rebuild_spec_den.
 Qed.
+
+(* --------------------------------------------------------- the invariant *)
+(* Every index entry maps a call key to a well-formed item that the cache-free
+   construction of that very call yields. *)
+Definition inv (st : cache) : Prop :=
+  forall key v, In (key, v) (idx st) ->
+    WI v /\ exists K, fst key = cls_name K /\ Den K (snd key) (OK v).
+
+Lemma inv_empty : inv empty.
+Proof. intros key v []. Qed.
+
+Lemma set_idx_in l k v e : In e (set_idx l k v) -> In e l \/ e = (k, v).
+Proof.
+  unfold set_idx. destruct (existsb _ l).
+  - intro H. apply in_map_iff in H as [x [E Hx]]. destruct (key_eqb (fst x) k); [right; now symmetry|left; now subst].
+  - intro H. apply in_app_or in H as [H|[H|[]]]; [now left|right; now symmetry].
+Qed.
+
+Lemma inv_save c st K args v : inv st -> WI v -> Den K args (OK v) -> inv (save c st (cls_name K, args) v).
+Proof.
+  intros HI Wv HD. unfold save. destruct (negb (use_cache c)); [exact HI|].
+  assert (NEW : forall key v0, (key, v0) = ((cls_name K, args), v) ->
+                  WI v0 /\ exists K0, fst key = cls_name K0 /\ Den K0 (snd key) (OK v0)).
+  { intros key v0 [= -> ->]. split; [exact Wv|]. exists K. now split. }
+  destruct (existsb (item_eqb v) (queue st)).
+  - intros key v0 H. cbn [idx] in H. apply set_idx_in in H as [H|H]; [now apply HI|now apply NEW].
+  - intros key v0 H. cbn [idx] in H. apply set_idx_in in H as [H|H]; [|now apply NEW].
+    destruct (Nat.leb (maxlen c) (List.length (queue st))); [|now apply HI].
+    destruct (queue st); cbn [snd] in H; [now apply HI|].
+    apply filter_In in H as [H _]. now apply HI.
+Qed.
+
+Lemma inv_save2 c st K args v : inv st -> WI v -> Den K args (OK v) ->
+  inv (save2 c st (cls_name K, args) v).
+Proof.
+  intros HI Wv HD. unfold save2, ident_key. apply inv_save; [now apply inv_save|exact Wv|].
+  now apply rebuild_spec_den.
+Qed.
+
+(* a hit returns what a miss would build *)
+Lemma lookup_inv c st K args v : inv st -> lookup c st (cls_name K, args) = Some v ->
+  WI v /\ Den K args (OK v).
+Proof.
+  intros HI. unfold lookup. destruct (use_cache c); [|discriminate].
+  destruct (find _ (idx st)) as [[key v0]|] eqn:E; [|discriminate]. cbn [option_map snd]. intros [= <-].
+  apply find_some in E as [HIn HE]. cbn [fst] in HE. apply key_eqb_eq in HE. subst key.
+  destruct (HI _ _ HIn) as [Wv [K0 [E0 HD]]]. cbn [fst snd] in *.
+  apply cls_name_inj in E0. subst K0. now split.
+Qed.
+
+(* ------------------------------------------------------------------ special *)
+Lemma special_sysfix c k args : sysfix c = true -> special c k args = special nocache k args.
+Proof. intro H. unfold special. rewrite H. reflexivity. Qed.
+
+Lemma sys_lookup_wf key p : sys_lookup key = Some p -> wf_pred p = true.
+Proof.
+  unfold sys_lookup. intro H. apply find_some in H as [HI _]. simpl in HI.
+  destruct HI as [<-|[<-|[]]]; reflexivity.
+Qed.
+
+Lemma special_wf k args a : args_wf args = true -> special nocache k args = Some (OK a) -> WI a.
+Proof.
+  intros W. unfold special.
+  destruct (match args with
+            | [PItem a0] => if issub (item_cls a0) k then Some (OK a0) else None
+            | [PStr s] => match k with CPredicate => Some (sys_pred_of s) | _ => None end
+            | _ => None
+            end) as [r|] eqn:E.
+  - intros [= ->]. destruct args as [|[z|s|l|a0] [|y r0]]; try discriminate E.
+    + destruct k; try discriminate E. injection E as E. unfold sys_pred_of in E.
+      destruct (find _ system_preds) as [p|] eqn:EF; [|discriminate E]. injection E as <-.
+      apply find_some in EF as [HI _]. simpl in HI. destruct HI as [<-|[<-|[]]]; reflexivity.
+    + destruct (issub (item_cls a0) k); [|discriminate E]. injection E as ->.
+      unfold args_wf in W. simpl in W. now rewrite andb_true_r in W.
+  - destruct k; try discriminate. cbn [sysfix nocache].
+    destruct (sys_lookup _) as [p|] eqn:EL; [|discriminate]. cbn [option_map]. intros [= <-].
+    exact (sys_lookup_wf _ _ EL).
+Qed.
+
+(* ---------------------------------------------------------------- fallback *)
+Lemma fallback_nocache_run n k C cn sp s r :
+  concrete k = false -> cls_of_name cn = Some C -> (is_lexabc k || issub C k) = true ->
+  call n nocache C sp s = (r, s) ->
+  fallback (call n nocache) nocache k [PTup [PStr cn; PTup sp]] s = (r, s).
+Proof.
+  intros HK HC HS H. unfold fallback. rewrite HK. cbn [List.length Nat.eqb negb orb].
+  rewrite HC, HS. cbn [negb]. change (lookup nocache s (cn, sp)) with (@None item). rewrite H.
+  destruct r as [a|e|]; reflexivity.
+Qed.
+
+Lemma Sim_const {A} (P : cache -> Prop) (W : A -> Prop) (m1 : M A) (m2 : nat -> M A) e :
+  (forall s, m1 s = (Err e, s)) -> (forall n s, m2 n s = (Err e, s)) -> Sim P W m1 m2.
+Proof.
+  intros H1 H2 s1 HP. rewrite H1. cbn [fst snd]. split; [exact HP|]. split; [discriminate|].
+  intros _. exists O. intros n _ s. apply H2.
+Qed.
+
+Section CallSim.
+Variable c : cfg.
+Variable rec1 : cls -> list pv -> M item.
+Hypothesis HREC : forall k a, args_wf a = true ->
+  Sim inv WI (rec1 k a) (fun n => call n nocache k a).
+
+Lemma fallback_sim k args : args_wf args = true ->
+  Sim inv WI (fallback rec1 c k args) (fun n => fallback (call n nocache) nocache k args).
+Proof.
+  intro W. unfold fallback.
+  destruct (concrete k || negb (Nat.eqb (List.length args) 1)) eqn:E0;
+    [apply Sim_const with ETypeError; reflexivity|].
+  apply orb_false_iff in E0 as [HK HL]. apply negb_false_iff, Nat.eqb_eq in HL.
+  destruct args as [|x [|y r0]]; try discriminate HL. clear HL.
+  destruct x as [z|s|l|a0]; try (apply Sim_const with ETypeError; reflexivity).
+  destruct l as [|a [|b [|d l']]]; try (apply Sim_const with ETypeError; reflexivity);
+    try (destruct a; apply Sim_const with ETypeError; reflexivity);
+    try (destruct a; destruct b; apply Sim_const with ETypeError; reflexivity).
+  destruct a as [z|cn|l|a0]; try (apply Sim_const with EValueError; reflexivity).
+  destruct b as [z|s|sp|a0]; try (apply Sim_const with EValueError; reflexivity).
+  destruct (cls_of_name cn) as [C|] eqn:EC; [|apply Sim_const with EValueError; reflexivity].
+  destruct (is_lexabc k || issub C k) eqn:ES; cbn [negb];
+    [|apply Sim_const with ETypeError; reflexivity].
+  destruct (cls_of_name_some _ _ EC) as [-> HCc].
+  assert (Wsp : args_wf sp = true).
+  { unfold args_wf in W. simpl in W. rewrite andb_true_r in W.
+    change (pv_wf (PTup [PStr (cls_name C); PTup sp]) = true) in W. rewrite pv_wf_tup in W.
+    simpl in W. rewrite andb_true_r in W. change (pv_wf (PTup sp) = true) in W.
+    now rewrite pv_wf_tup in W. }
+  intros s1 HP.
+  assert (RUN : forall r, Den C sp r ->
+            DenM (fun n => fallback (call n nocache) nocache k [PTup [PStr (cls_name C); PTup sp]]) r).
+  { intros r HD. eapply Ev_imp; [|exact HD]. intros n Hn s.
+    apply fallback_nocache_run with C; auto. }
+  unfold fallback in RUN. rewrite HK in RUN. cbn [List.length Nat.eqb negb orb] in RUN.
+  rewrite EC, ES in RUN. cbn [negb] in RUN.
+  destruct (lookup c s1 (cls_name C, sp)) as [v|] eqn:EL.
+  - destruct (lookup_inv _ _ _ _ _ HP EL) as [Wv HD]. cbn [fst snd].
+    split; [exact HP|]. split; [now intros a [= <-]|]. intros _. now apply RUN.
+  - destruct (HREC C sp Wsp s1 HP) as [A1 [A2 A3]].
+    destruct (rec1 C sp s1) as [[inst|e|] s2] eqn:ER; cbn [fst snd] in *.
+    + split; [apply inv_save2; auto; apply A3; discriminate|].
+      split; [intros a [= <-]; now apply A2|]. intros _. apply RUN. apply A3. discriminate.
+    + split; [exact A1|]. split; [discriminate|]. intros _. apply RUN. apply A3. discriminate.
+    + split; [exact A1|]. split; [discriminate|]. intro X. now destruct X.
+Qed.
+End CallSim.
+
+(* T: the cached call simulates the cache-free construction — for every
+   configuration of the repaired code (any maxlen, cache on or off), every fuel,
+   every state satisfying the invariant. *)
+Theorem call_sim f : forall c, sysfix c = true -> forall k args, args_wf args = true ->
+  Sim inv WI (call f c k args) (fun n => call n nocache k args).
+Proof.
+  induction f as [|f IH]; intros c HF k args W.
+  - intros s1 HP. cbn [call lift fst snd]. split; [exact HP|]. split; [discriminate|].
+    intro X. now destruct X.
+  - assert (HREC : forall k a, args_wf a = true -> Sim inv WI (call f c k a) (fun n => call n nocache k a))
+      by (intros; now apply IH).
+    destruct (is_enum k) eqn:EK.
+    + intros s1 HP. rewrite call_unfold.
+      assert (X : call_unfold f c k args = call_unfold f c k args) by reflexivity. clear X.
+      destruct (construct_sim inv (call f c) HREC k args W s1 HP) as [A1 [A2 A3]].
+      destruct k; try discriminate EK; (split; [exact A1|]; split; [exact A2|]; intro NF;
+        apply den_enum; [reflexivity|now apply A3]).
+    + assert (SP : special c k args = special nocache k args) by now apply special_sysfix.
+      intros s1 HP. rewrite call_unfold.
+      assert (GOAL :
+        let m := match special c k args with
+                 | Some r => lift r
+                 | None => fun st =>
+                     match lookup c st (cls_name k, args) with
+                     | Some v => (OK v, st)
+                     | None =>
+                         match construct (call f c) k args st with
+                         | (OK inst, st1) => (OK inst, save2 c st1 (cls_name k, args) inst)
+                         | (Err ETypeError, st1) => fallback (call f c) c k args st1
+                         | other => other
+                         end
+                     end
+                 end in
+        inv (snd (m s1)) /\ (forall a, fst (m s1) = OK a -> WI a) /\
+        (fst (m s1) <> Fuel -> Den k args (fst (m s1)))).
+      { cbv zeta. rewrite SP. destruct (special nocache k args) as [r|] eqn:ES.
+        - cbn [lift fst snd]. split; [exact HP|]. split.
+          + intros a ->. now apply (special_wf k args).
+          + intros _. now apply den_special.
+        - destruct (lookup c s1 (cls_name k, args)) as [v|] eqn:EL.
+          + destruct (lookup_inv _ _ _ _ _ HP EL) as [Wv HD]. cbn [fst snd].
+            split; [exact HP|]. split; [now intros a [= <-]|]. now intros _.
+          + destruct (construct_sim inv (call f c) HREC k args W s1 HP) as [A1 [A2 A3]].
+            destruct (construct (call f c) k args s1) as [[inst|[|]|] st1] eqn:EC; cbn [fst snd] in *.
+            * assert (HD : Den k args (OK inst)) by (apply den_of_construct; [exact EK|exact ES|apply A3; discriminate]).
+              split; [apply inv_save2; auto|]. split; [intros a [= <-]; now apply A2|]. now intros _.
+            * destruct (fallback_sim c (call f c) HREC k args W st1 A1) as [B1 [B2 B3]].
+              split; [exact B1|]. split; [exact B2|]. intro NF.
+              apply den_of_fallback; [exact EK|exact ES|apply A3; discriminate|apply B3; exact NF].
+            * split; [exact A1|]. split; [discriminate|]. intros _.
+              apply den_of_construct_verr; [exact EK|exact ES|apply A3; discriminate].
+            * split; [exact A1|]. split; [discriminate|]. intro X. now destruct X. }
+      destruct k; try discriminate EK; exact GOAL.
+Qed.
+
+(* ------------------------------------------------------ top-level theorems *)
+Definition hist_wf (h : list op) : bool := forallb (fun o => args_wf (snd o)) h.
+
+Lemma run_inv fuel c : sysfix c = true -> forall h st, hist_wf h = true -> inv st ->
+  inv (snd (run fuel c h st)).
+Proof.
+  intro HF. induction h as [|[k args] h IH]; intros st W HI; [exact HI|].
+  simpl in W. apply andb_true_iff in W as [W1 W2]. cbn [run].
+  destruct (call_sim fuel c HF k args W1 st HI) as [A _].
+  destruct (call fuel c k args st) as [r st1]. cbn [snd] in A.
+  specialize (IH st1 W2 A). destruct (run fuel c h st1) as [rs st2]. exact IH.
+Qed.
+
+(* T cache_transparent (repaired code): for every maxlen, every history of
+   constructor calls (whose instance arguments are well-formed items, as all
+   Python instances are), every call and every fuel: unless the model runs out
+   of fuel, the cached call returns exactly the cache-free construction. *)
+Theorem cache_transparent_den ml fuel h o : hist_wf h = true -> args_wf (snd o) = true ->
+  let st := snd (run fuel (cached ml) h empty) in
+  let r := fst (call fuel (cached ml) (fst o) (snd o) st) in
+  r <> Fuel -> Den (fst o) (snd o) r.
+Proof.
+  intros Wh Wo st r NF.
+  assert (HI : inv st) by (apply run_inv; auto using inv_empty).
+  destruct (call_sim fuel (cached ml) eq_refl (fst o) (snd o) Wo st HI) as [_ [_ A]]. now apply A.
+Qed.
+
+Lemma build0_den fuel k args : args_wf args = true -> build0 fuel k args <> Fuel ->
+  Den k args (build0 fuel k args).
+Proof.
+  intros W NF. destruct (call_sim fuel nocache eq_refl k args W empty inv_empty) as [_ [_ A]].
+  now apply A.
+Qed.
+
+Theorem cache_transparent ml fuel fuel' h o : hist_wf h = true -> args_wf (snd o) = true ->
+  let st := snd (run fuel (cached ml) h empty) in
+  let r := fst (call fuel (cached ml) (fst o) (snd o) st) in
+  r <> Fuel -> build0 fuel' (fst o) (snd o) <> Fuel -> r = build0 fuel' (fst o) (snd o).
+Proof.
+  intros Wh Wo st r NF NF'.
+  apply (DenM_agree (fun n => call n nocache (fst o) (snd o))).
+  - now apply cache_transparent_den.
+  - now apply build0_den.
+Qed.
+
+(* hits return items equal to what a miss would build *)
+Theorem cache_hit_sound ml fuel h K args v : hist_wf h = true ->
+  lookup (cached ml) (snd (run fuel (cached ml) h empty)) (cls_name K, args) = Some v ->
+  wf_item v = true /\ Den K args (OK v).
+Proof.
+  intros Wh HL. apply (lookup_inv (cached ml) (snd (run fuel (cached ml) h empty))); auto.
+  apply run_inv; auto using inv_empty.
+Qed.
+
+(* and every cached result is a well-formed item *)
+Theorem cached_results_wf ml fuel h o a : hist_wf h = true -> args_wf (snd o) = true ->
+  fst (call fuel (cached ml) (fst o) (snd o) (snd (run fuel (cached ml) h empty))) = OK a ->
+  wf_item a = true.
+Proof.
+  intros Wh Wo E.
+  assert (HI : inv (snd (run fuel (cached ml) h empty))) by (apply run_inv; auto using inv_empty).
+  destruct (call_sim fuel (cached ml) eq_refl (fst o) (snd o) Wo _ HI) as [_ [A _]]. now apply A.
+Qed.
+
+(* T rebuild: for every well-formed item i of the nine types,
+   type(i)( *i.spec ) and LexicalAbc(i.ident) (also Sentence(...) /
+   Parameter(...) where applicable) construct i, for every large enough fuel. *)
+Theorem rebuild a : wf_item a = true ->
+  exists n0, forall n, (n0 <= n)%nat -> rebuild_spec n a = OK a /\ rebuild_ident n a = OK a.
+Proof.
+  intro W.
+  destruct (rebuild_spec_den a W) as [n1 H1].
+  destruct (rebuild_ident_den a CLexicalAbc W eq_refl eq_refl) as [n2 H2].
+  exists (Nat.max n1 n2). intros n Hn. unfold rebuild_spec, rebuild_ident, build0.
+  rewrite (H1 n) by lia. rewrite (H2 n) by lia. now split.
+Qed.
+
+Lemma pv_wf_cons x l : pv_wf (PTup (x :: l)) = pv_wf x && pv_wf (PTup l).
+Proof. reflexivity. Qed.
+Lemma pv_wf_nil : pv_wf (PTup []) = true.
+Proof. reflexivity. Qed.
+
+Lemma params_ident_wf ps : pv_wf (PTup (map param_ident ps)) = true.
+Proof.
+  induction ps as [|x ps IH]; [reflexivity|]. cbn [map]. rewrite pv_wf_cons, IH. now destruct x.
+Qed.
+
+Lemma sent_spec_wf s : pv_wf (PTup (sent_spec s)) = true.
+Proof.
+  induction s as [i t|p ps|q vi vs b IH|o x IH|o x IHx y IHy]; cbn [sent_spec];
+    rewrite ?pv_wf_cons, ?pv_wf_nil, ?params_ident_wf, ?IH, ?IHx, ?IHy; reflexivity.
+Qed.
+
+Lemma spec_args_wf a : args_wf (spec_args a) = true.
+Proof.
+  unfold args_wf. rewrite <- pv_wf_tup.
+  destruct a as [p|[i s|i s]|q|o|s]; try reflexivity. apply sent_spec_wf.
+Qed.
+
+Lemma ident_args_wf a : args_wf [ident_pv a] = true.
+Proof.
+  unfold args_wf, ident_pv. cbn [forallb]. rewrite !pv_wf_cons, pv_wf_nil.
+  pose proof (spec_args_wf a) as H. unfold args_wf in H. rewrite <- pv_wf_tup in H. now rewrite H.
+Qed.
+
+Theorem rebuild_cached ml fuel h a : hist_wf h = true -> wf_item a = true ->
+  let st := snd (run fuel (cached ml) h empty) in
+  (fst (call fuel (cached ml) (item_cls a) (spec_args a) st) <> Fuel ->
+   fst (call fuel (cached ml) (item_cls a) (spec_args a) st) = OK a) /\
+  (fst (call fuel (cached ml) CLexicalAbc [ident_pv a] st) <> Fuel ->
+   fst (call fuel (cached ml) CLexicalAbc [ident_pv a] st) = OK a).
+Proof.
+  intros Wh W st.
+  pose proof (spec_args_wf a) as W1. pose proof (ident_args_wf a) as W2.
+  split; intro NF.
+  - apply (DenM_agree (fun n => call n nocache (item_cls a) (spec_args a))).
+    + apply (cache_transparent_den ml fuel h (item_cls a, spec_args a) Wh W1 NF).
+    + now apply rebuild_spec_den.
+  - apply (DenM_agree (fun n => call n nocache CLexicalAbc [ident_pv a])).
+    + apply (cache_transparent_den ml fuel h (CLexicalAbc, [ident_pv a]) Wh W2 NF).
+    + now apply rebuild_ident_den.
+Qed.
